@@ -60,6 +60,7 @@ class Engine:
 
     def __init__(self, concrete=None, feas_timeout_ms=1500, claim_timeout_ms=20000, seed=0):
         self.concrete = concrete
+        self.fl_functional = False
         self.max_depth = 600
         self.path_seconds = 120
         self.path_deadline = None
@@ -745,7 +746,15 @@ def fl(op, exact, operands, exact_ok=False):
     hit = E.fl_cache.get(key)
     if hit is not None:
         return SymFloat(hit[0])
-    r = z3.Real(f"fl!{next(E.fresh)}")
+    # the result is an uninterpreted function of the operand VALUES (functional consistency:
+    # equal operands give the same double), constrained by the rounding-error bound
+    if E.fl_functional:
+        ops_r = [o if o.sort() == z3.RealSort() else z3.ToReal(o) for o in operands]
+        f = z3.Function(f"fl_{op}", *([z3.RealSort()] * len(ops_r)), z3.RealSort())
+        r = f(*ops_r)
+    else:
+        # independent result per syntactically distinct operation (a superset of behaviours; cheaper to solve)
+        r = z3.Real(f"fl!{next(E.fresh)}")
     lo, hi = ex * (1 - U), ex * (1 + U)
     E._add(z3.If(ex >= 0, z3.And(r >= lo, r <= hi), z3.And(r >= hi, r <= lo)))
     E.fl_cache[key] = (r, operands)  # keep operands alive: ids stay unique
